@@ -63,6 +63,7 @@ type AssertionSpec struct {
 	}
 	Attrs                                   []AttrSpec
 	NoAttrStmt                              bool
+	NoClassRef                              bool // AuthnContext that names its class by AuthnContextDeclRef only (legal: the ClassRef is optional)
 	SessionIndex                            string
 	AuthnInstant                            string
 	SessionNOA                              string
@@ -297,7 +298,11 @@ func buildAssertion(st nsStyle, a *AssertionSpec) *etree.Element {
 		as.CreateAttr("SessionNotOnOrAfter", a.SessionNOA)
 	}
 	as.CreateAttr("SessionIndex", a.SessionIndex)
-	as.CreateElement(st.a("AuthnContext")).CreateElement(st.a("AuthnContextClassRef")).SetText("urn:oasis:names:tc:SAML:2.0:ac:classes:PasswordProtectedTransport")
+	if a.NoClassRef {
+		as.CreateElement(st.a("AuthnContext")).CreateElement(st.a("AuthnContextDeclRef")).SetText("https://idp.example.com/authn-context/decl#mfa")
+	} else {
+		as.CreateElement(st.a("AuthnContext")).CreateElement(st.a("AuthnContextClassRef")).SetText("urn:oasis:names:tc:SAML:2.0:ac:classes:PasswordProtectedTransport")
+	}
 	if !a.NoAttrStmt {
 		ast := el.CreateElement(st.a("AttributeStatement"))
 		for _, at := range a.Attrs {
